@@ -530,7 +530,8 @@ class C13(Check):
             "one / ~25 % / ~50 % / ~75 % / all cells inactive; 0..6 NNC records; MAPAXES (16 rotations, both "
             "handednesses) with or without MAPUNITS; EGRID formatted or unformatted; probes with 1, 4 and 16 "
             "OpenMP threads.  Non-trivial: non-uniform spacing and >= 1 inactive cell and (corner-point) a fault or "
-            "a shear; distinct = distinct generated case.")
+            "a shear; distinct = distinct generated case."
+            " Extended during the build phase: GRIDUNIT, DZ for the first L layers only, a completely pinched-out column, the volume cache filled under another mask of the same count first, and every layer surface read through EGrid::getXYZ_layer by a reader that has not loaded ZCORN.")
     ASSUMPTIONS = [
         "cells have strictly positive thickness at every corner - except one whole column of a block-centred grid, which may be pinched out completely (DZ = 0) - and layers do not overlap (fixupZCORN has nothing to repair)",
         "DX depends on i only, DY on j only (conforming block-centred grid); DZ may vary per cell",
